@@ -507,7 +507,11 @@ theorem print_narrow_effect (t : Term) (b : Nat) (hst : t.st = .ground) (hb : 0x
     (hk : t.cursorKnown = true) (hpw : t.pendingWrap = false) (hirm : t.modes.insertMode = false)
     (hx : t.cx + 1 < t.w)
     (hc0 : (t.get t.cx t.cy).cont = false) (hc1 : (t.get (t.cx + 1) t.cy).cont = false) :
-    t.feedByte b = { t with grid := t.grid.set t.cx t.cy (t.glyphCell b), cx := t.cx + 1 } := by
+    t.feedByte b =
+      { t with
+        grid := t.grid.set t.cx t.cy (t.glyphCell b)
+        cx := t.cx + 1
+        last := some (t.cx, t.cy, t.cx + 1, t.cy, false) } := by
   have hwd : t.widthOf (b : Int) = 1 := by
     unfold widthOf
     cases hu : t.cfg.utf8 with
